@@ -754,6 +754,11 @@ class Association(threading.Thread):
             # Check if the DULServiceProvider thread is still running
             #   DUL.is_alive() is inherited from threading.thread
             if not self.dul.is_alive():
+                # The DUL may have queued an A-ABORT/A-P-ABORT indication just
+                #   before stopping, process it before giving up
+                if self.acse.is_aborted():
+                    continue
+
                 self.kill()
                 return
 
